@@ -651,6 +651,15 @@ func evalC18(sc *c18Scenario, obs *c18Obs, rc *ruleCtx) {
 			case get != nil && get.Outcome == "error" && fo.Discard, set != nil && set.Outcome == "error" && fo.Discard:
 				rc.anteTrue("C18.F5")
 				rc.fail("C18.F5", "discarded_cache_error_surfaced", fmt.Sprintf("%s: DiscardCacheError is true, healthy server, yet Fetch failed: %v", tag, fo.Err))
+			case get != nil && get.Outcome == "hit":
+				// "either a bundle held in the cache ... still within next-update, or a
+				// bundle freshly downloaded": an entry the cache handed out without
+				// error, usable or not, is no reason to fail
+				rc.anteTrue("C18.F2")
+				rc.fail("C18.F2", "cached_entry_neither_served_nor_refreshed", fmt.Sprintf("%s: the cache returned an entry without error, the server is healthy, yet Fetch failed instead of serving or refreshing it: %v", tag, fo.Err))
+			case fo.NoCache:
+				rc.anteTrue("C18.F1")
+				rc.fail("C18.F1", "healthy_download_failed", fmt.Sprintf("%s: no cache, healthy server, yet Fetch failed: %v", tag, fo.Err))
 			}
 		}
 		if get != nil && get.Outcome == "miss" {
@@ -659,6 +668,14 @@ func evalC18(sc *c18Scenario, obs *c18Obs, rc *ruleCtx) {
 				// a miss (however the cache wraps the sentinel) must lead to a
 				// download, not to an error before anything was requested
 				rc.fail("C18.F6", "miss_is_error_without_download", fmt.Sprintf("%s: the cache reported a miss and Fetch failed without requesting the CRL at all: %v", tag, fo.Err))
+			}
+		}
+		if get != nil && get.Outcome == "hit" {
+			rc.anteTrue("C18.F2")
+			rc.st.Probes["c18_fetch_failed_after_cache_hit"]++
+			if !fo.XBase.Rec.Begun && urlContactable(w.baseURL) && sc.URLKind == UNormal {
+				// the entry was neither served (if still good) nor refreshed (if not)
+				rc.fail("C18.F2", "cached_entry_neither_served_nor_refreshed", fmt.Sprintf("%s: the cache returned an entry without error, yet Fetch failed without serving it or requesting the CRL at all: %v", tag, fo.Err))
 			}
 		}
 		if baseOK && shapeClear && len(urls) > 0 && firstDelta == nil {
